@@ -4,7 +4,8 @@
    The full round trip (name, flavour, range, empty root, bitmap incl. extension blocks, free count) is checked per
    geometry by formatting, closing, mounting and decoding with the extracted decoder (checks/c14.py). *)
 From Coq Require Import ZArith List Bool.
-From ADF Require Import CPrelude Generated.Layout Generated.Leaf Proofs.GeometryP Proofs.ProgP Proofs.FormatP.
+Import ListNotations.
+From ADF Require Import CPrelude Generated.Layout Generated.Leaf Proofs.GeometryP Proofs.ProgP Proofs.FormatP Model.Bitmap Proofs.BitmapP Proofs.ConserveP.
 Local Open Scope Z_scope.
 
 Theorem C14_bitmap_pages : forall n, 0 <= n < 2 ^ 32 - 4064 -> c_nBlock2bitmapSize n = cdiv n 4064.
@@ -35,7 +36,19 @@ Example C14_witness : c_nBlock2bitmapSize 4064 = 1 /\ c_nBlock2bitmapSize 4065 =
   c_nBlock2bitmapSize (101603 - 2) = 26.
 Proof. repeat split; reflexivity. Qed.
 
+(* the free count a fresh volume reports: adfCreateBitmap starts from the all-ones table and the format takes the distinct blocks `used`
+   (root, bitmap pages, bitmap extension blocks, the root's cache block); the count over blocks 2..last is then the size of the volume minus
+   the two boot blocks minus the number of blocks in use - for every volume size and every such set (checks/c14.py compares the mounted
+   volume's adfCountFreeBlocks with this number for each formatted geometry) *)
+Theorem C14_free_count_after_format : forall last used, 1 <= last -> NoDup used -> (forall x, In x used -> 2 <= x <= last) ->
+  count_free (fold_left set_used used all_free) last = (last + 1) - 2 - Z.of_nat (length used).
+Proof. exact count_after_format. Qed.
+
+Example C14_free_count_witness : count_free (fold_left set_used [880; 881] all_free) 1759 = 1756 /\ count_free (fold_left set_used [880; 881; 882] all_free) 1759 = 1755.
+Proof. split; vm_compute; reflexivity. Qed.
+
 Print Assumptions C14_bitmap_pages.
+Print Assumptions C14_free_count_after_format.
 Print Assumptions C14_bitmap_covers.
 Print Assumptions C14_devtype.
 Print Assumptions C14_flop_range.
